@@ -19,7 +19,27 @@ import (
 	. "vh/kit"
 )
 
-func main() { Main("gen-constants", runGenConstants) }
+func main() {
+	// --selftest is handled here (kit.Main owns the other flags)
+	var rest []string
+	for _, a := range os.Args {
+		if a == "--selftest" || a == "-selftest" {
+			goliteSelftest = true
+			continue
+		}
+		rest = append(rest, a)
+	}
+	os.Args = rest
+	Main("gen-constants", func(a *Args) error {
+		if err := runGenConstants(a); err != nil {
+			return err
+		}
+		// GoLite: translations of function bodies, one Cxx_Gen.v per property
+		// (docs/GOLITE.md); never fails the run
+		goliteMain(a.Repo, a.Out)
+		return nil
+	})
+}
 
 type gcFile struct {
 	f      *ast.File
